@@ -493,7 +493,7 @@ def fam_stop(tier, outdir):
     if tier == "thorough":
         consts.update({"MaxTime": 6, "MaxCalls": 4, "Timeouts": "{0, 2, 3}", "MaxStops": 1})   # (every third action as well: about an hour, three properties run this family)
     cfg = os.path.join(outdir, "MC_Stop.cfg")
-    write_cfg(cfg, "Spec", consts, ["TypeOK", "LifeChild", "WaitTruthful", "NoSignalAfterReap"], export_stride=1)
+    write_cfg(cfg, "Spec", consts, ["TypeOK", "LifeChild", "WaitTruthful", "NoSignalAfterReap", "KfNoSignal"], export_stride=1)
     res = run_tlc_export("stop", "MC_Stop", cfg, outdir, tier, asan_stride=16 if tier == "quick" else 4)
     sc = dict(consts); sc.update({"MaxTime": 8, "MaxCalls": 8, "MaxStops": 5, "Timeouts": "{0, 1, 3}"})
     if tier != "quick":
